@@ -189,6 +189,11 @@ def h_cobs(cx, sig, emin, emax):
     fb = format(b, '+' + str(sig))
     cx.expect(f == '(' + fa + fb + 'j)', 'format(CObs) shows both parts', f)
     cx.expect(repr(z) == 'CObs[' + s + ']', 'repr(CObs)')
+    # sign / padding flags, with and without a significance: they only add the leading character of the real part
+    for flag in ('+', ' '):
+        for spec, digits in ((flag + str(sig), str(sig)), (flag, '2')):
+            ff = format(z, spec)
+            cx.expect(ff == '(' + format(a, flag + digits) + format(b, '+' + digits) + 'j)', 'format(CObs, %r) = flagged real part, signed imaginary part' % spec, ff)
 
 
 def h_views(cx):
